@@ -7,6 +7,9 @@
 #![allow(clippy::all)]
 #![allow(static_mut_refs)]
 
+#[global_allocator]
+static GLOBAL: delayalloc::DelayAlloc = delayalloc::DelayAlloc;
+mod delayalloc;
 mod arena;
 mod interpose;
 mod maps;
